@@ -76,7 +76,12 @@ fn numeric_grid() -> Vec<V> {
 fn text_grid() -> Vec<V> {
     let mut ts: Vec<Vec<u8>> = vec![b"".to_vec(), b"a".to_vec(), b"ab".to_vec(), b"abc".to_vec(), b"abcdefgh".to_vec(), b"abcdefghi".to_vec(), b"abcdefgi".to_vec(), b"b".to_vec(), b"B".to_vec(), b" ".to_vec(),
         "é".as_bytes().to_vec(), "z".repeat(9).into_bytes(), "z".repeat(300).into_bytes(), { let mut v = "z".repeat(299).into_bytes(); v.push(b'y'); v }, "z".repeat(5000).into_bytes()];
+    // texts longer than one 8-byte comparison chunk: shared leading chunks, different numbers of whole chunks, difference in the tail
+    for s in ["customer_name_9", "customer_name_10", "abcdefghijklmno", "abcdefghijklmnop", "abcdefghijklmnoz", "abcdefghijklm", "abcdefghijklmz", "abcdefghijklmnopqrstu", "abcdefghijklmnopqrstuvwxyz"] { ts.push(s.as_bytes().to_vec()); }
+    let mut x: u64 = 0x9E3779B97F4A7C15;
+    for _ in 0..40 { x ^= x << 13; x ^= x >> 7; x ^= x << 17; let n = 9 + (x % 28) as usize; let mut v = b"aaaaaaaa".to_vec(); let mut y = x; for _ in 8..n { v.push(if y & 1 == 0 { b'a' } else { b'b' }); y >>= 1; } ts.push(v); }
     ts.sort();
+    ts.dedup();
     ts.iter().enumerate().map(|(i, b)| { let s = String::from_utf8(b.clone()).unwrap(); V { d: DataType::Blob(Blob::from(s.clone())), ty: "text", cls: "text", rank: i as i64 + 1, frank: i as i64 + 1, nan: false, negzero: false, sql: Some(format!("'{s}'")) } }).collect()
 }
 
